@@ -290,3 +290,101 @@ Proof.
   - destruct (assign _ _ _). discriminate.
   - exfalso. eapply scan_no_panic. exact Hs.
 Qed.
+
+(* ---------- last sentence of C12: only pods that belong to a batch use its budget, and the budget is used ---------- *)
+(* a pod counted for batch k is also of the NEW revision (judged with the controller-revision-hash it carries, or the one
+   computed from its ReplicaSet when it carries none) *)
+Lemma counted_is_new_revision i k p : is_counted i k p = true ->
+  exists crh, consistent (p_pth p) crh (i_rev i) = true /\ (crh = p_crh p \/ p_owner p = RSHash crh).
+Proof.
+  unfold is_counted, classify. destruct (p_deleting p); [discriminate|].
+  destruct (sempty (p_crh p)).
+  - destruct (p_owner p) as [| |h]; cbn; try discriminate.
+    + destruct (negb (consistent (p_pth p) (p_crh p) (i_rev i))) eqn:E; [discriminate|]. intros _.
+      exists (p_crh p). apply negb_false_iff in E. auto.
+    + destruct (negb (consistent (p_pth p) h (i_rev i))) eqn:E; [discriminate|]. intros _.
+      exists h. apply negb_false_iff in E. auto.
+  - cbn. destruct (negb (consistent (p_pth p) (p_crh p) (i_rev i))) eqn:E; [discriminate|]. intros _.
+    exists (p_crh p). apply negb_false_iff in E. auto.
+Qed.
+
+Lemma assign_bids rid pr u ws lft w : assign rid pr u = (ws, lft) -> In w ws -> exists idx cnt, In (idx, cnt) pr /\ w_bid w = Some (idx + 1).
+Proof. intros H Hw. destruct (assign_spec rid pr u ws lft H) as [_ Hs]. destruct (Hs w Hw) as [_ Hx]. exact Hx. Qed.
+
+Lemma count_has_bid_zero k ws : (forall w, In w ws -> w_bid w <> Some k) -> count (has_bid k) ws = 0.
+Proof.
+  induction ws as [|w ws IH]; intros H; [reflexivity|]. rewrite count_cons, IH by (intros x Hx; apply H; right; exact Hx).
+  unfold has_bid. destruct (w_bid w) as [b|] eqn:E; [|reflexivity].
+  destruct (b =? k) eqn:Eb; [|reflexivity]. apply Z.eqb_eq in Eb. subst b. exfalso. apply (H w); [left; reflexivity|exact E].
+Qed.
+
+Lemma number_from_nth {A} (l : list A) : forall s k x, nth_error l k = Some x -> In (s + Z.of_nat k, x) (number_from s l).
+Proof.
+  induction l as [|a l IH]; intros s k x Hx; [destruct k; discriminate|].
+  destruct k; cbn [number_from nth_error] in *.
+  - injection Hx as <-. left. f_equal. lia.
+  - right. replace (s + Z.of_nat (S k)) with ((s + 1) + Z.of_nat k) by lia. apply IH. exact Hx.
+Qed.
+
+(* the hand-out stops only when the pods run out or every batch got its whole remaining budget *)
+Lemma assign_fills rid pr : forall u ws lft, assign rid pr u = (ws, lft) -> NoDup (map fst pr) ->
+  lft = [] \/ forall idx cnt, In (idx, cnt) pr -> count (has_bid (idx + 1)) ws = Z.max 0 cnt.
+Proof.
+  induction pr as [|[idx cnt] pr IH]; intros u ws lft H Hnd.
+  - right. intros idx cnt [].
+  - cbn [assign] in H. unfold take_for_batch in H. cbn [map fst] in Hnd. inversion Hnd as [|? ? Hnotin Hnd']; subst.
+    destruct (Nat.ltb (List.length u) (Z.to_nat cnt)) eqn:Hout.
+    + left. injection H as _ <-. apply Nat.ltb_lt in Hout. apply skipn_all2. lia.
+    + destruct (assign rid pr (skipn (Z.to_nat cnt) u)) as [ws' lft'] eqn:Hrec. injection H as <- <-.
+      destruct (IH _ _ _ Hrec Hnd') as [He|Hall]; [left; exact He|]. right.
+      apply Nat.ltb_ge in Hout.
+      intros j c [Hjc|Hin].
+      * injection Hjc as <- <-. rewrite count_app, count_mk_same.
+        rewrite count_has_bid_zero.
+        -- unfold zlen. rewrite firstn_length, Nat.min_l by lia. lia.
+        -- intros w Hw Hb. destruct (assign_bids _ _ _ _ _ _ Hrec Hw) as [i' [c' [Hin' Hb']]].
+           rewrite Hb in Hb'. injection Hb' as Hb'. apply Hnotin. apply in_map_iff. exists (i', c'). split; [cbn; lia|exact Hin'].
+      * rewrite count_app, (Hall j c Hin). rewrite count_mk_other; [lia|].
+        intros Heq. apply Hnotin. apply in_map_iff. exists (j, c). split; [cbn; lia|exact Hin].
+Qed.
+
+(* C12: unless the unlabelled live pods of the new revision ran out (every one of them received a label), batch k+1
+   receives exactly its increment minus the pods that BELONG to it already -- pods of another revision, terminating pods,
+   pods of another release or with an unparsable batch id take nothing away *)
+Theorem budget_filled i ws : patch_pod_batch_label i = Ok ws -> ws <> [] ->
+  count is_batch_write ws = count (fun p => match classify i p with PUnpatched _ => true | _ => false end) (pods_used i) \/
+  forall k, (k < List.length (incs i))%nat ->
+    count (has_bid (Z.of_nat k + 1)) ws = Z.max 0 (nth k (incs i) 0 - count (is_counted i (Z.of_nat k + 1)) (pods_used i)).
+Proof.
+  intros H Hne.
+  destruct (patch_ok_inv i _ H Hne) as [plan [unp [ho [ws1 [lft [hw [Hs [Ha [Heq Hhw]]]]]]]]].
+  destruct (scan_spec _ _ _ _ _ _ _ _ Hs) as [Hl [Hn [new [Hu1 [Hu2 _]]]]]. cbn [app] in Hu1. subst unp.
+  assert (Hnd : NoDup (map fst (rev (number_from 0 plan)))) by (rewrite map_rev; apply NoDup_rev, number_from_nodup).
+  assert (Hzero : forall f, (forall w, In w hw -> f w = false) -> count f hw = 0).
+  { intros f Hf. clear -Hf. induction hw as [|x hw IH]; [reflexivity|]. rewrite count_cons, (Hf x) by (left; reflexivity).
+    rewrite IH; [reflexivity|]. intros w Hw. apply Hf. right. exact Hw. }
+  destruct (assign_fills _ _ _ _ _ Ha Hnd) as [He|Hall].
+  - (* the pods ran out: every unpatched pod was labelled *)
+    left. subst lft. destruct (assign_spec _ _ _ _ _ Ha) as [[m [Hm1 Hm2]] Hw].
+    rewrite Heq, count_app, (Hzero is_batch_write) by (intros w Hw'; unfold is_batch_write; rewrite (Hhw w Hw'); reflexivity).
+    assert (Hall : count is_batch_write ws1 = zlen ws1).
+    { clear -Hw. induction ws1 as [|w ws1 IH]; [reflexivity|]. rewrite count_cons. unfold zlen in *. cbn [List.length].
+      destruct (Hw w (or_introl eq_refl)) as [_ [i0 [c0 [_ Hb]]]]. unfold is_batch_write at 1. rewrite Hb.
+      rewrite IH by (intros x Hx; apply Hw; right; exact Hx). lia. }
+    rewrite Hall, Z.add_0_r.
+    assert (Hlen : List.length ws1 = List.length new).
+    { apply (f_equal (@List.length _)) in Hm1. rewrite !map_length in Hm1. rewrite Hm1.
+      symmetry in Hm2. apply (f_equal (@List.length _)) in Hm2. rewrite skipn_length in Hm2. cbn in Hm2.
+      rewrite firstn_length, rev_length in *. lia. }
+    unfold zlen. rewrite Hlen. rewrite <- (map_length fst new), Hu2.
+    clear. induction (pods_used i) as [|p l IH]; [reflexivity|]. cbn [filter]. rewrite count_cons.
+    destruct (classify i p); cbn [List.length]; lia.
+  - right. intros k Hk.
+    rewrite Heq, count_app, (Hzero (has_bid (Z.of_nat k + 1))) by (intros w Hw'; unfold has_bid; rewrite (Hhw w Hw'); reflexivity).
+    rewrite Z.add_0_r.
+    assert (Hk' : (k < List.length plan)%nat) by (rewrite Hl; exact Hk).
+    destruct (nth_error plan k) as [x|] eqn:Hx; [|apply nth_error_None in Hx; lia].
+    assert (Hin : In (Z.of_nat k, x) (rev (number_from 0 plan))).
+    { apply -> in_rev. replace (Z.of_nat k) with (0 + Z.of_nat k) by lia. apply number_from_nth. exact Hx. }
+    rewrite (Hall _ _ Hin). rewrite <- (Hn k Hk). rewrite (nth_error_nth _ _ _ Hx). reflexivity.
+Qed.
